@@ -39,16 +39,33 @@ fn x_grid(thorough: bool) -> Vec<BigInt> {
     }
     v.push("2".into());
     v.push("5".into());
+    // full-length digit patterns: every fixed-point product / quotient is inexact
+    v.push("0.3333333333333333333333333333333333".into());
+    v.push("0.1234567890123456789012345678901234".into());
+    v.push("1.0986122886681097821314567891234567".into()); // just below ln 3
     if thorough {
         v.push("3".into());
         v.push("10".into());
-        v.push("0.3333333333333333333333333333333333".into());
-        v.push("1.0986122886681097".into()); // just below ln 3
+        v.push("0.0506931471805599453094172321214581".into());
+        v.push("0.6931471805599453094172321214581765".into());
     }
     // negative arguments: e^|x| is still dominated by the bound
-    let mut neg: Vec<String> = vec!["-0.001".into(), "-0.05".into(), "-0.5".into(), "-1".into(), "-1.2".into(), "-2".into()];
+    let mut neg: Vec<String> = vec![
+        "-0.001".into(),
+        "-0.05".into(),
+        "-0.5".into(),
+        "-1".into(),
+        "-1.2".into(),
+        "-2".into(),
+        "-0.3333333333333333333333333333333333".into(),
+        "-0.9876543210987654321098765432109876".into(),
+        "-0.1234567890123456789012345678901234".into(),
+        "-0.7071067811865475244008443621048490".into(),
+        "-1.0986122886681097821314567891234567".into(),
+        "-0.0506931471805599453094172321214581".into(),
+    ];
     if thorough {
-        for s in ["-0.0000000000000000000000000000010000", "-0.25", "-0.75", "-1.05", "-5"] {
+        for s in ["-0.0000000000000000000000000000010000", "-0.25", "-0.75", "-1.05", "-5", "-1.1234567890123456789012345678901234", "-0.0123456789012345678901234567890123"] {
             neg.push(s.into());
         }
     }
@@ -193,9 +210,9 @@ pub fn run(ctx: Ctx) -> ! {
                 };
                 let got_a = raw_of(&r.approx).map(|v| fx::show(&v, 34)).unwrap_or_else(|e| e);
                 sink.push((
-                    format!("exp_cmp:ref-mismatch:{which}:{xclass}"),
+                    format!("exp_cmp:ref-mismatch:{xclass}"),
                     format!(
-                        "exp_cmp(x={}, max_n={}, bound={}, compare={} [{}]) = ({est}, {} iterations, approx {got_a}); reference algorithm gives ({west}, {} iterations, approx {})",
+                        "{which} differs: exp_cmp(x={}, max_n={}, bound={}, compare={} [{}]) = ({est}, {} iterations, approx {got_a}); reference algorithm gives ({west}, {} iterations, approx {})",
                         fx::show(&c.x, 34),
                         c.max_n,
                         c.bound,
@@ -245,7 +262,7 @@ pub fn run(ctx: Ctx) -> ! {
     let cov = cov! {
         "evaluations" => cases.len(),
         "distinct_nontrivial" => distinct.len(),
-        "rule" => "evaluation = one FixedDecimal::exp_cmp(max_n, bound, compare) call. x in {0, 10^-k, points around the 10^-24 cut-off, 0.05..1.2 step 0.05 (thorough: 0.01), 2, 5, negative values}; bound in {3,4,10,200,..} kept only when bound >= e^|x| (the premise); compare in {E, E +-1ulp, E*(1 +- d) for d in 1e-30,1e-20,1e-10,1e-3,1, and the reference run's upper/lower decision thresholds of the first iterations -1/0/+1 ulp}; max_n in {1,2,3,5,10,100,1000}. All generated cases are distinct; non-trivial = the comparison loop ran at least one iteration",
+        "rule" => "evaluation = one FixedDecimal::exp_cmp(max_n, bound, compare) call. x in {0, 10^-k, points around the 10^-24 cut-off, 0.05..1.2 step 0.05 (thorough: 0.01), 2, 5, full-length digit patterns, negative values}; bound in {3,4,10,200,..} kept only when bound >= e^|x| (the premise); compare in {E, E +-1ulp, E*(1 +- d) for d in 1e-30,1e-20,1e-10,1e-3,1, and the reference run's upper/lower decision thresholds of the first iterations -1/0/+1 ulp}; max_n in {1,2,3,5,10,100,1000}. All generated cases are distinct; non-trivial = the comparison loop ran at least one iteration",
         "samples" => samples,
         "x_values" => xs.len(),
         "x_negative" => xs.iter().filter(|x| x.is_negative()).count(),
@@ -261,7 +278,7 @@ pub fn run(ctx: Ctx) -> ! {
         &[
             "true ordering of compare and e^x: mpmath at 120-150 digits (equality only asserted for x = 0)",
             "premise 'bound dominates e^|x|' decided with f64 exp and a 1e-9 relative margin",
-            "the reference algorithm is re-implemented from its description (strict > / < tests, signed error term, 10^-24 cut-off) in fx.rs with num-bigint",
+            "the reference algorithm is re-implemented from its description (strict > / < tests, remainder bound = bound * |next term|, 10^-24 cut-off) in fx.rs with num-bigint; for x >= 0 the magnitude and the signed product coincide",
             "values enter/leave pallas through from_str / PartialEq",
         ],
     )
